@@ -974,6 +974,12 @@ def check_C06(ctx, unit):
                      "; ".join(sorted(set(bad_l))[:3]) if bad_l else "%d list-link writes over %d paths, all paired" % (n_l, len(ex)), g)
 
     from .rules_link import check_conditional_snapshot
+    ctx.rule("K.stale-after-rebalance", "after a call that may rebalance the tree without bound (fix_insert, fix_remove and whatever "
+             "reaches them) no local read from a child or parent link before that call is used again", 3)
+    check_stale_after_rebalance(ctx, "K.stale-after-rebalance", fns)
+    ctx.rule("H.colour-on-entry", "insert_root/insert_left/insert_right, read with one level of fix_insert, write the colour of "
+             "the node they link in on every path: an inserted node's colour never depends on what its hook held before", 3)
+    check_colour_on_entry(ctx, "H.colour-on-entry", unit, fns)
     ctx.rule("K.conditional-snapshot", "a local snapshot of a hook field (colour, link) is not used after that field was "
              "rewritten on some but not all of the paths from the snapshot to the use", 1)
     check_conditional_snapshot(ctx, "K.conditional-snapshot", [g_ for gs_ in fns.values() for g_ in gs_])
@@ -1030,6 +1036,167 @@ def check_C06(ctx, unit):
             if assigned:
                 ctx.inst("R.rb-loops", "%s: loop at block %d descends" % (g.sig, nl.header), not bad and down > 0, g.loc,
                          "; ".join(bad) if bad else "%d cursor updates, all to a child" % down, g)
+
+
+def check_stale_after_rebalance(ctx, rule, fns):
+    """After a call that may rebalance the tree to an unbounded extent (a function from which a rotation is reached through
+    at least one other function: fix_insert / fix_remove and whatever calls them), a local that was read from a child or
+    parent link before the call no longer says anything about the tree: it must not be used again."""
+    from . import rules_atomic as RA
+    allf = [g for gs in fns.values() for g in gs]
+    byd = {g.d["did"]: g for g in allf}
+    callees = {g.d["did"]: {n.callee["did"] for n in g.events() if n.is_call() and n.callee and n.callee.get("did") in byd} for g in allf}
+    rot = {d for d, g in byd.items() if g.name in ("rotateLeft", "rotateRight", "rotate")}
+    if not rot:
+        raise AnalysisBroken("anchor vanished: rotations of %s" % RB)
+    reach = set(rot)
+    changed = True
+    while changed:
+        changed = False
+        for d, cs in callees.items():
+            if d not in reach and cs & reach:
+                reach.add(d)
+                changed = True
+    # unbounded: reaches a rotation through a recursive function (fix_insert / fix_remove call themselves)
+    recursive = {d for d in reach if d in callees[d]}
+    unb = set(recursive)
+    changed = True
+    while changed:
+        changed = False
+        for d, cs in callees.items():
+            if d not in unb and cs & unb:
+                unb.add(d)
+                changed = True
+    if not recursive:
+        raise AnalysisBroken("anchor vanished: no recursive rebalancing function in %s" % RB)
+    n_calls = 0
+    for g in allf:
+        ms = [n for n in g.events() if n.is_call() and n.callee and n.callee.get("did") in unb]
+        if not ms:
+            continue
+        n_calls += len(ms)
+        inits = RA.local_inits(g)
+        snaps = {}
+        for d_, i_ in inits.items():
+            x_ = std_unwrap(i_)
+            hops = 0
+            while x_.kind in ("ImplicitCastExpr", "CXXStaticCastExpr", "ParenExpr", "CStyleCastExpr") and x_.children and hops < 6:
+                x_, hops = x_.children[0].strip(), hops + 1
+            if x_.is_call() and x_.callee and x_.callee["n"] in ("get_left", "get_right", "get_parent"):
+                snaps[d_] = x_.callee["n"]
+            elif x_.kind == "MemberExpr" and x_.get("m") in ("left", "right", "parent") and x_.children \
+                    and std_unwrap(x_.children[0]).is_call() and (std_unwrap(x_.children[0]).callee or {}).get("n") == "h":
+                snaps[d_] = "h()->" + x_.get("m")
+        bad = []
+        for n in g.events():
+            if n.kind == "DeclRefExpr" and n.d.get("d") in snaps and not RA._reassigned(g, n.d["d"]):
+                di = inits[n.d["d"]]
+                for m_ in ms:
+                    if g.reaches(m_.id, n.id) and g.reaches(di.id, m_.id) and not any(a.id == n.id for arg in m_.args for a in arg.walk()):
+                        bad.append("%s (read through %s) is used at %s after %s at %s may have rebalanced the tree" % (
+                            n.n, snaps[n.d["d"]], n.loc, m_.callee["n"], m_.loc))
+        ctx.inst(rule, g.sig, not bad, g.loc, "; ".join(sorted(set(bad))[:2]) if bad else
+                 "%d rebalancing call(s); no earlier child/parent snapshot is used afterwards" % len(ms), g)
+    if n_calls < 3:
+        raise AnalysisBroken("anchor vanished: calls of rebalancing functions in %s (found %d)" % (RB, n_calls))
+
+
+def params_overwritten_unread(f):
+    """[(param name, location)]: a parameter is assigned on a path on which nothing has read it yet -- what the caller
+    passed is dropped on that path."""
+    out = []
+    for p_ in f.params():
+        did = p_["d"]
+        if not p_.get("n"):
+            continue
+        lhs = set()
+        writes = {}
+        for n in f.all_nodes():
+            if n.kind == "BinaryOperator" and n.op == "=":
+                l = n.children[0].strip()
+                if l.kind == "DeclRefExpr" and l.d.get("d") == did:
+                    lhs.add(l.id)
+                    lhs.add(n.children[0].id)
+                    writes[n.id] = n
+        if not writes:
+            continue
+        hit = []
+
+        def tr(n, st, did=did, lhs=lhs, writes=writes, hit=hit):
+            if st == "read":
+                return [st]
+            if n.kind == "DeclRefExpr" and n.d.get("d") == did and n.id not in lhs:
+                return ["read"]
+            if n.id in writes:
+                hit.append(n.loc)
+                return ["read"]
+            return [st]
+        flow.run(f, ["unread"], tr)
+        for l in sorted(set(hit)):
+            out.append((p_["n"], l))
+    return out
+
+
+def check_colour_on_entry(ctx, rule, unit, fns):
+    """Every insertion entry point (insert_root / insert_left / insert_right), read together with one level of fix_insert,
+    writes the colour of the node it links in on every path to its end: the colour an inserted node starts from is decided
+    by the insertion, not by whatever the hook held (a hook keeps the colour it had when the node was last removed)."""
+    from .inline import inline_variant
+    n_inst = 0
+    for name in ("insert_root", "insert_left", "insert_right"):
+        for f0 in fns.get(name, [])[:1]:
+            f = inline_variant(unit, f0, lambda cal: cal.get("n") == "fix_insert", rounds=1)
+            node_did = f0.params()[-1]["d"]
+            bm = f.bind_map()
+
+            def root(x, f=f, bm=bm):
+                x = std_unwrap(x)
+                hops = 0
+                while x.kind in ("ImplicitCastExpr", "CXXStaticCastExpr", "ParenExpr", "CStyleCastExpr") and x.children and hops < 6:
+                    x, hops = std_unwrap(x.children[0]), hops + 1
+                hops = 0
+                while x.kind == "DeclRefExpr" and x.d.get("d") in bm and hops < 8:
+                    x, hops = std_unwrap(f.node(bm[x.d["d"]])), hops + 1
+                return x.d.get("d") if x.kind == "DeclRefExpr" else None
+
+            # state: (colour written?, locals currently equal to the inserted node) -- a cursor of an iterative fix-up
+            # (`T *current = start; ... current = grand;`) names the inserted node only until it is moved
+            def tr(n, st, root=root):
+                done, al = st
+                if done:
+                    return [st]
+                if n.kind == "DeclStmt":
+                    for d in n.get("decls", []):
+                        if "init" in d and root(f.node(d["init"])) in al | {node_did}:
+                            al = al | {d["d"]}
+                    return [(done, al)]
+                if n.kind == "ParamBind" and "init" in n.d:
+                    # the parameter of a folded helper that the helper assigns to (an iterative fix-up moving `n` upwards)
+                    if root(f.node(n.d["init"])) in al | {node_did}:
+                        al = al | {n.d["d"]}
+                    return [(done, al)]
+                if n.kind == "BinaryOperator" and n.op == "=":
+                    l = n.children[0].strip()
+                    if l.kind == "DeclRefExpr" and l.d.get("d") != node_did and l.get("dk") in (None, "Var", "ParmVar"):
+                        r = root(n.children[1])
+                        al = (al | {l.d["d"]}) if (r == node_did or r in al) else (al - {l.d["d"]})
+                        return [(done, al)]
+                    if l.kind == "MemberExpr" and l.get("m") == "color" and l.children:
+                        b = std_unwrap(l.children[0])
+                        if b.is_call() and b.callee and b.callee["n"] == "h" and b.args:
+                            r = root(b.args[-1])
+                            if r == node_did or r in al:
+                                return [(True, frozenset())]
+                return [(done, al)]
+            _, ex = flow.run(f, [(False, frozenset())], tr)
+            ok = bool(ex) and all(e[0] for e in ex)
+            n_inst += 1
+            ctx.inst(rule, "%s::%s (with fix_insert)" % (RB, name), ok, f0.loc,
+                     "the colour of the inserted node is written on every path to the end" if ok else
+                     "a path reaches the end of %s/fix_insert without writing the colour of the inserted node: the node keeps "
+                     "whatever colour its hook held (e.g. black from before it was last removed)" % name, f0)
+    if n_inst < 3:
+        raise AnalysisBroken("anchor vanished: insert_root/insert_left/insert_right")
 
 
 # ---- C07 ------------------------------------------------------------------------------------------------
@@ -1102,6 +1269,38 @@ def check_C07(ctx, unit, thorough=False):
         raise AnalysisBroken("anchor vanished: _for_overlaps_in_subtree(fn, lb, ub, node) signature")
     LBN, UBN, NODE = gp[1]["n"], gp[2]["n"], gp[3]["n"]
     LO, HI = "lower(%s)" % NODE, "upper(%s)" % NODE
+    # the bounds of a query are fixed when the query starts: the walker compares every node against objects that belong to
+    # the query (its own by-value parameters, or by-value parameters / locals of the function that starts the walk), never
+    # against references to storage of the caller that the callback may write to between two nodes
+    ctx.rule("W.query-bounds-owned", "the bounds the interval walk compares against are by-value parameters of the walker, or "
+             "references to by-value parameters / locals of the for_overlaps() that starts it: a callback that writes to the "
+             "objects it passed as bounds cannot change the query under way", 1)
+    byref = [p_ for p_ in gp[1:3] if p_["t"].rstrip().endswith("&")]
+    badq = []
+    if byref:
+        starters = [(f_, n_) for f_ in unit.functions if f_.owner_cls == IT and f_.name != g.name
+                    for n_ in f_.events() if n_.is_call() and n_.callee and n_.callee["n"] == g.name]
+        if not starters:
+            badq.append("%s takes %s by reference and nothing inside the class starts the walk with objects of its own" % (g.name, byref[0]["n"]))
+        ent = {f_.d["did"] for f_, _ in starters}
+        work = list(starters)
+        seen_ = set()
+        while work:
+            f_, n_ = work.pop()
+            for idx in (1, 2):
+                if not gp[idx]["t"].rstrip().endswith("&") and n_.callee["n"] == g.name:
+                    continue
+                a_ = std_unwrap(n_.args[idx]) if len(n_.args) > idx else None
+                if n_.callee["n"] != g.name:
+                    a_ = None
+                if a_ is None or a_.kind != "DeclRefExpr" or (a_.get("t") or "").rstrip().endswith("&") or \
+                        any(pp_["d"] == a_.d.get("d") and pp_["t"].rstrip().endswith("&") for pp_ in f_.params()):
+                    badq.append("%s passes %s to %s, which keeps a reference to it for the whole walk" % (
+                        f_.name, _ids(canon(n_.args[idx]))[:40] if len(n_.args) > idx else "?", g.name))
+    ctx.inst("W.query-bounds-owned", IT + "::" + g.name, not badq, g.loc,
+             "; ".join(sorted(set(badq))[:2]) if badq else
+             ("bounds taken by value (%s, %s)" % (gp[1]["t"], gp[2]["t"]) if not byref else
+              "bounds are references to by-value parameters or locals of the starting function"), g)
     atoms = set()
 
     def spec(lo, hi, lb, ub):
@@ -1391,8 +1590,14 @@ def check_C07(ctx, unit, thorough=False):
 
             def agg_false(cond, truth):
                 c, t = cond.strip(), truth
-                while c.kind == "UnaryOperator" and c.op == "!":
-                    c, t = c.children[0].strip(), not t
+                while True:
+                    if c.kind == "UnaryOperator" and c.op == "!":
+                        c, t = c.children[0].strip(), not t
+                    elif c.kind == "BinaryOperator" and c.op in ("&&", "||") and any(x.id == ag.id for x in c.children[1].walk()):
+                        # the block that evaluates the right operand of a short-circuit branches on that operand
+                        c = c.children[1].strip()
+                    else:
+                        break
                 return std_unwrap(c).id == ag.id and t is False
             for b in sorted(lp.body):
                 if b == lp.header:
@@ -1401,6 +1606,13 @@ def check_C07(ctx, unit, thorough=False):
                     if succ in lp.body:
                         continue
                     ok_edge = cond is not None and agg_false(cond, truth)
+                    if not ok_edge and cond is not None:
+                        # `cursor && aggregate(cursor)`: the test of the cursor itself is a block of its own; leaving
+                        # where the cursor is null is the end of the walk, not an early stop
+                        ws = list(cond.walk())
+                        ok_edge = (any(x.kind == "DeclRefExpr" and x.d.get("d") == cur for x in ws)
+                                   and not any(x.is_call() for x in ws)
+                                   and all(x.kind != "DeclRefExpr" or x.d.get("d") == cur for x in ws))
                     if not ok_edge:
                         nodes_ = f.blocks[b].nodes()
                         facts = flow.facts_at(f, nodes_[-1].id) if nodes_ else []
@@ -1672,6 +1884,18 @@ def check_C08(ctx, unit):
                                     a_.n, n.loc, m_.callee["n"], m_.loc))
             ctx.inst("K.stale-after-root-merge", g_.sig, not bad, g_.loc, "; ".join(sorted(set(bad))[:2]) if bad else
                      "%d root merge(s); no neighbour snapshot is used afterwards" % len(merges), g_)
+    ctx.rule("K.param-consumed", "no parameter of a heap function is assigned on a path on which it has not been read: the heap "
+             "or element the caller handed in (an accumulator, a list head) would be dropped on that path", 1)
+    n_p, bad_p = 0, []
+    for name_ in sorted(fns):
+        for g_ in fns[name_]:
+            n_p += len(g_.params())
+            for pn_, loc_ in params_overwritten_unread(g_):
+                bad_p.append((loc_, "%s: parameter %s is overwritten at %s before anything on that path read it" % (g_.name, pn_, loc_)))
+    if n_p < 5:
+        raise AnalysisBroken("anchor vanished: parameters of %s functions (found %d)" % (PH, n_p))
+    ctx.inst("K.param-consumed", PH, not bad_p, bad_p[0][0] if bad_p else fns["_collapse"][0].loc,
+             "; ".join(b[1] for b in bad_p[:2]) if bad_p else "%d parameters, none overwritten unread" % n_p, None)
     from .rules_link import check_conditional_snapshot
     ctx.rule("K.conditional-snapshot", "a local snapshot of a hook link is not used after that link was rewritten on some but not "
              "all of the paths from the snapshot to the use", 1)
